@@ -13,7 +13,7 @@ RULE = ('E1 (Hypothesis): arrays of 0..12 elements of one of the 7 kinds (valid 
         'index / GeoDataFrame with extra columns, a second non-active geometry column and a drawn index); key [xs, ys] where '
         'each of the four ends is present / omitted / the pair reversed, resolving to a box of positive area built from the '
         'data\'s own coordinates (+-1/2, +-1); a list of index histories for the same object: never built | build_sindex(p, '
-        'page_size in {1,2,3,4,7,8,512}) | built on the parent then iloc-sliced | built and queried twice. Oracle: rows whose '
+        'page_size in {1,2,3,4,7,8,512}) | built on the parent then iloc-sliced [a:b] | built on the parent then sliced with a step ([::-1], [::2], [:]) | built and queried twice. Oracle: rows whose '
         'element intersects the resolved closed box by the exact C01 oracle (omitted ends <- reference total bounds of the '
         'model); the result must equal parent.iloc[expected] (order, labels, other columns, container type) and be identical '
         'for every history. Non-trivial: the selection is neither empty nor everything and at least one history has an index '
@@ -59,16 +59,17 @@ def _describe(obj, cont):
             'columns': list(obj.columns), 'active': getattr(obj, '_geometry', None)}
 
 
-def _expected(case, els, idx, positions, cont, kind, off=0):
-    sel = [els[i] for i in positions]
-    canon = model.canon_elements([model._conv(e, case['subtype']) for e in sel])
+def _expected(case, els, idx, positions, cont, kind, rows=None):
+    chosen = [els[i] for i in positions]
+    canon = model.canon_elements([model._conv(e, case['subtype']) for e in chosen])
     tname = {'array': model.array_class(kind).__name__, 'series': 'GeoSeries', 'frame': 'GeoDataFrame'}[cont]
     if cont == 'array':
         return {'type': tname, 'g': canon}
     if cont == 'series':
         return {'type': tname, 'index': [idx[i] for i in positions], 'g': canon, 'name': 'g'}
-    return {'type': tname, 'index': [idx[i] for i in positions], 'g': canon, 'v': [(i + off) * 10 for i in positions],
-            's': [f's{i + off}' for i in positions], 'other': [[i + off, -(i + off)] for i in positions],
+    orig = [rows[i] for i in positions] if rows is not None else list(positions)     # row numbers in the parent
+    return {'type': tname, 'index': [idx[i] for i in positions], 'g': canon, 'v': [i * 10 for i in orig],
+            's': [f's{i}' for i in orig], 'other': [[i, -i] for i in orig],
             'columns': ['other', 'v', 'g', 's'], 'active': 'g'}
 
 
@@ -101,8 +102,15 @@ def evaluate(case):
             if hi < lo:
                 lo, hi = hi, lo
             obj = obj[lo:hi] if case['container'] == 'array' else obj.iloc[lo:hi]
-        sub = els[lo:hi]
-        sub_idx = idx[lo:hi]
+        sel = list(range(lo, hi))
+        if h['kind'] == 'parent-stepped':
+            # index built on the parent, then a slice with a step (reversal, every other row): positions change
+            obj = lib(B + ['build_sindex'], obj.build_sindex, p=h['p'], page_size=h['page_size'])
+            sl = slice(None, None, h['step'])
+            obj = obj[sl] if case['container'] == 'array' else obj.iloc[sl]
+            sel = list(range(n))[sl]
+        sub = [els[i] for i in sel]
+        sub_idx = [idx[i] for i in sel]
         canon_sub = model.canon_elements([model._conv(e, subtype) for e in sub])
         tb = model.ref_total_bounds(kind, [model.denorm(e) if e is not None else None for e in canon_sub])
         key = case['key']
@@ -115,7 +123,7 @@ def evaluate(case):
             labels.append('skipped-history:degenerate-resolved-box')
             continue
         exp_pos = [i for i, e in enumerate(sub) if og.elem_intersects_box(kind, e, box)]
-        exp = _expected(case, sub, sub_idx, exp_pos, case['container'], kind, lo)
+        exp = _expected(case, sub, sub_idx, exp_pos, case['container'], kind, sel)
         xs = slice(key['x'][0], key['x'][1])
         ys = slice(key['y'][0], key['y'][1])
         reps = 2 if h['kind'] == 'twice' else 1
@@ -137,7 +145,7 @@ def evaluate(case):
                               f'history={h} key={key} box={box} elements={sub} got={got} expected={exp}'))
                 break
         results.append((tag, exp_pos, len(sub)))
-        if h['kind'] != 'none' and h.get('page_size', 512) < max(1, hi - lo):
+        if h['kind'] != 'none' and h.get('page_size', 512) < max(1, len(sel)):
             nt_hist = True
         labels.append('hist:' + h['kind'])
     nt = False
@@ -199,10 +207,12 @@ def _case(draw):
     pagesizes = [1, 2, 3, 4, 7, 8, 512]
     hists = [{'kind': 'none'}]
     for _ in range(draw(st.integers(1, 3))):
-        hk = draw(st.sampled_from(['build', 'build', 'twice', 'parent-sliced']))
+        hk = draw(st.sampled_from(['build', 'build', 'twice', 'parent-sliced', 'parent-stepped']))
         h = {'kind': hk, 'p': draw(st.integers(1, 20)), 'page_size': draw(st.sampled_from(pagesizes))}
         if hk == 'parent-sliced':
             h['lo'], h['hi'] = draw(st.integers(0, 12)), draw(st.integers(0, 12))
+        if hk == 'parent-stepped':
+            h['step'] = draw(st.sampled_from([-1, -1, 2, -2, 1]))
         hists.append(h)
     return {'kind': kind, 'subtype': subtype, 'elements': els, 'reback': draw(st.sampled_from(model.REBACKINGS)),
             'key': {'x': xs, 'y': ys}, 'container': draw(st.sampled_from(['array', 'series', 'frame', 'frame'])),
